@@ -4,6 +4,7 @@
      len=..;leaf=..;fwd=..;bwd=..;get=..;gx=..;sl=..;tab=..       or  build=E:<exn> *)
 type ast =
   | Leaf of string * string list            (* kind, ints *)
+  | Hist of string * string list            (* kind (arrh listh tuph tabh treeh), operations *)
   | Range of string list
   | Slice of string list * ast
   | Rev of ast
@@ -16,6 +17,8 @@ let ints s = if s = "-" then [] else String.split_on_char ',' s
 
 let rec parse toks = match toks with
   | ("arr" | "list" | "tup" | "tupr" | "tab" | "tree" as k) :: xs :: r -> Leaf (k, ints xs), r
+  | ("arrh" | "listh" | "tuph" | "tabh" | "treeh" as k) :: h :: r ->
+    Hist (k, (if h = "-" then [] else String.split_on_char '/' h)), r
   | "range" :: a :: r -> Range (ints a), r
   | "slice" :: a :: r -> let u, r = parse r in Slice (ints a, u), r
   | "rev" :: r -> let u, r = parse r in Rev u, r
@@ -43,6 +46,7 @@ let posmod a m = ((a mod m) + m) mod m
 
 (* built node: iterable, basesz, haslen, hasget *)
 type info = { it : iterable; basesz : int; haslen : bool; hasget : bool }
+let raised = ref 0
 let slices : rng list ref = ref []          (* prefix order *)
 let leaves : (iterable * int) list ref = ref []
 let tabs : val0 option list list ref = ref []
@@ -62,6 +66,35 @@ let rec build (a : ast) : info =
       | _ -> ITree (tree_build zs), false in
     if k = "tab" || k = "tree" then leaves := !leaves @ [(it, n)];
     { it; basesz = n; haslen = true; hasget }
+  | Hist (k, ops) ->
+    let rest s = String.sub s 1 (String.length s - 1) in
+    let zints s = List.map z_of_dec (ints (if s = "" then "-" else s)) in
+    if k = "tabh" || k = "treeh" then begin
+      let kops = List.filter_map (fun o -> if o = "" then None else match o.[0] with
+        | 'k' -> Some (KSet (z_of_dec (rest o))) | 'r' -> Some (KRem (z_of_dec (rest o)))
+        | 'z' -> Some (KResize (nat_of_int (int_of_string (rest o)))) | _ -> None) ops in
+      let it = if k = "tabh" then begin
+          let (sl, r) = table_hist kops in raised := !raised + int_of_nat r; tabs := !tabs @ [sl]; ITable sl end
+        else begin let (t, r) = tree_hist kops in raised := !raised + int_of_nat r; ITree t end in
+      leaves := !leaves @ [(it, 64)];
+      { it; basesz = 64; haslen = true; hasget = false }
+    end else begin
+      let init, ops = match ops with o :: r when o <> "" && o.[0] = 'n' -> zints (rest o), r | _ -> [], ops in
+      let hops = List.filter_map (fun o -> if o = "" then None else match o.[0] with
+        | 'p' -> Some (HPush (z_of_dec (rest o))) | 'o' -> Some HPop | 'x' -> Some (HPopAt (z_of_dec (rest o)))
+        | 'r' -> Some (HRem (z_of_dec (rest o)))
+        | 'a' -> (match String.split_on_char ':' (rest o) with [i; v] -> Some (HPushAt (z_of_dec i, z_of_dec v)) | _ -> None)
+        | 'z' -> Some (HResize (z_of_dec (rest o))) | 'c' -> Some (HConcat (zints (rest o))) | 's' -> Some HSort
+        | _ -> None) ops in
+      let sk = if k = "arrh" then KArr else if k = "listh" then KList else KTup in
+      let (zs, r) = m_hist sk init hops O in
+      raised := !raised + int_of_nat r;
+      let vs = List.map (fun z -> VInt z) zs in
+      let it = match sk with
+        | KArr -> IArray vs | KList -> IList vs
+        | KTup -> ITuple (List.mapi (fun i v -> (nat_of_int i, v)) vs) in
+      { it; basesz = 64; haslen = true; hasget = true }
+    end
   | Range args ->
     let it = ok (m_range (List.map arg args)) in
     let l = match m_len it with OVal z -> int_of_z z | _ -> 0 in
@@ -108,7 +141,7 @@ let walk_s d cut it =
 
 let () =
   read_lines (fun line ->
-    slices := []; leaves := []; tabs := [];
+    slices := []; leaves := []; tabs := []; raised := 0;
     try
       let a, rest = parse (String.split_on_char ' ' line) in
       if rest <> [] then failwith "trailing";
@@ -148,6 +181,7 @@ let () =
         z_to_dec r.r_start ^ ":" ^ z_to_dec r.r_stop ^ ":" ^ z_to_dec r.r_step) !slices));
       Buffer.add_string buf (";tab=" ^ String.concat "/" (List.map (fun sl ->
         String.concat "," (List.map (function None -> "_" | Some v -> show v) sl)) !tabs));
+      Buffer.add_string buf (";hist=" ^ string_of_int !raised);
       print_endline (Buffer.contents buf)
     with
     | Build s -> print_endline ("build=" ^ s)
